@@ -130,9 +130,9 @@ CLAIMED.update({
         text=("TLC enumerates the case structure of specs/Likelihood.tla (Gaussian; Bernoulli outcome x interior / saturated "
               "prediction; right-censored Weibull: censored / observed x event before / at / after the reference time x four shape "
               "classes incl. exactly 1 and 3 x with / without space shifts), builds the expected negative log-density of each case as "
-              "a symbolic term and checks CensoredOnlySurvival and Finite; each case is instantiated with seeded numeric points, the "
+              "a symbolic term (plus the hazard and log-survival terms of the Weibull cases after the reference time) and checks CensoredOnlySurvival, Finite and HazardTimesSurvival; each case is instantiated with seeded numeric points, the "
               "real distribution families are evaluated (single entries, per-feature scales, two competing events with opposite "
-              "censoring flags) and compared with the evaluated term; TLC checks that every case conforms and that the records cover "
+              "censoring flags; the hazard and log-survival the Weibull families hand out) and compared with the evaluated terms; TLC checks that every case conforms and that the records cover "
               "the case space (LikelihoodTrace.tla); model-level variables (individual priors, Gaussian attachment over observed "
               "entries, event attachment with an event moved before the reference time) are compared entry by entry with the same terms; "
               "events 2^-15 before / after the reference time are cases of their own (CloseIsOrdinary); an exception inside the support is a mismatch."),
@@ -162,12 +162,12 @@ CLAIMED.update({
               "integer log-accelerations; the enumerated triples are turned into real model states (logistic / linear / joint, with "
               "and without sources, seeded population values, optionally an extreme progressor, a large Weibull scale or a reverted "
               "proposal on the velocities), the real re-centring is applied and TLC checks the verdicts (TrajectoryTrace.tla): "
-              "trajectories, attachments and event likelihoods unchanged, zero-mean log-accelerations, every mixing-matrix row "
+              "trajectories, attachments, event likelihoods and the hazard / log-survival of the event family unchanged, zero-mean log-accelerations, every mixing-matrix row "
               "orthogonal to the progression direction in the metric - both evaluated from the terms of Trajectory.tla part D, also "
               "for velocities near the single-precision floor, features far apart at the reference time, the shared-speed model and joint "
               "models with two kinds of events; specs/OrthoBasis.tla enumerates dimension 2-5 x metric kind (scalar / vector / matrix) x "
               "stripped column and the real compute_orthonormal_basis is checked on each (shape, Euclidean orthonormality, metric orthogonality)."),
-        note=("Level 'other': invariance and orthogonality are numeric facts judged with tolerances 1e-5 (1 + |value|), 1e-6, 1e-5 "
+        note=("Level 'other': invariance and orthogonality are numeric facts judged with tolerances 1e-5 (1 + |value|), 1e-4 relative (hazard / log-survival), 1e-6, 1e-5 "
               "||row|| ||G v0||; TLC decides the gauge algebra exactly and enumerates the patterns."),
         technique="TLA+ gauge algebra checked exactly by TLC; spec-enumerated patterns run on real states; code->spec conformance",
         design_ref="4/C10"),
